@@ -542,6 +542,57 @@ func runCellRel(c *core.Ctx) []core.Obligation {
 	} else {
 		obs = append(obs, core.Ob("R-CELLREL", "(s2.Cap).intersects:centre-in-cell", "-", "", core.Violated, "unresolved anchor"))
 	}
+	// Cap.ContainsCell: "all four vertices inside" is not enough (a cap larger than a hemisphere is not convex; the hole can
+	// lie inside the cell): true is returned only as the negation of "the complement intersects the cell"
+	if fn := c.Fn("s2", "Cap", "ContainsCell"); fn != nil {
+		ok, why := true, ""
+		nret := 0
+		for _, b := range fn.Blocks {
+			r, isRet := b.Instrs[len(b.Instrs)-1].(*ssa.Return)
+			if !isRet || len(r.Results) != 1 {
+				continue
+			}
+			nret++
+			seen := map[ssa.Value]bool{}
+			var check func(v ssa.Value)
+			check = func(v ssa.Value) {
+				if seen[v] {
+					return
+				}
+				seen[v] = true
+				switch x := v.(type) {
+				case *ssa.Const:
+					if x.Value != nil && x.Value.String() == "true" {
+						ok, why = false, "Cap.ContainsCell answers true without asking whether the complementary cap intersects the cell: for a cap larger than a hemisphere all four vertices can be inside while the uncovered hole lies in the cell's interior or pokes through an edge, so an interior covering contains points outside the cap"
+					}
+				case *ssa.Phi:
+					for _, e := range x.Edges {
+						check(e)
+					}
+				case *ssa.UnOp:
+					if x.Op == token.NOT {
+						if call, isCall := x.X.(*ssa.Call); isCall && core.StaticCallee(call) != nil && core.StaticCallee(call).Name() == "intersects" {
+							return
+						}
+					}
+					ok, why = false, "Cap.ContainsCell returns something other than false or !complement.intersects(cell)"
+				default:
+					ok, why = false, "Cap.ContainsCell returns something other than false or !complement.intersects(cell)"
+				}
+			}
+			check(r.Results[0])
+		}
+		if nret == 0 {
+			ok, why = false, "no return found"
+		}
+		if ok {
+			obs = append(obs, core.Ob("R-CELLREL", "(s2.Cap).ContainsCell:true-only-via-complement", c.Pos(fn.Pos()), core.FuncName(fn), core.Discharged, "true is returned only as !complement.intersects(cell, vertices)"))
+		} else {
+			obs = append(obs, core.Ob("R-CELLREL", "(s2.Cap).ContainsCell:true-only-via-complement", c.Pos(fn.Pos()), core.FuncName(fn), core.Violated, why))
+		}
+	} else {
+		obs = append(obs, core.Ob("R-CELLREL", "(s2.Cap).ContainsCell:true-only-via-complement", "-", "", core.Violated, "unresolved anchor"))
+	}
 	return obs
 }
 
